@@ -40,6 +40,21 @@ logging.disable(logging.CRITICAL)
 MAX_EVENTS = 3000
 MISSING = -999
 NOTINT = -998
+# values that are equal to a declared default without being it (the reset must still put the default back)
+SPECIAL = {1000: False, 1001: True, 1002: 1.0, 1003: -0.0, 1004: 0.0, 1005: 5.0}
+
+
+def code_of(v):
+    if type(v) is int:
+        return v
+    if type(v) is bool:
+        return 1001 if v else 1000
+    if type(v) is float:
+        import math
+        if v == 0.0:
+            return 1003 if math.copysign(1.0, v) < 0 else 1004
+        return {1.0: 1002, 5.0: 1005}.get(v, NOTINT)
+    return NOTINT
 
 
 class Hang(Exception):
@@ -95,8 +110,8 @@ def snapshot():
                 d[a] = MISSING
             else:
                 v = getattr(comp, a)
-                d[a] = v if type(v) is int else NOTINT
-                if type(v) is not int:
+                d[a] = code_of(v)
+                if d[a] == NOTINT:
                     inj = False
         if comp is None or not hasattr(comp, "shared") or comp.shared is not getattr(r, "shared", None):
             inj = False
@@ -124,7 +139,7 @@ def HOOK(k, o, key="", arg=None, st=""):
           "arg": -1 if arg is None else int(round(arg * 1e6))}
     Rec.log.append(ev)
     for w in dec["w"]:
-        setattr(getattr(Rec.robot, w["c"]), w["a"], w["v"])
+        setattr(getattr(Rec.robot, w["c"]), w["a"], SPECIAL.get(w["v"], w["v"]))
     for c in dec.get("eng", []):
         getattr(Rec.robot, c).engage()
     if dec["adv"]:
@@ -133,7 +148,10 @@ def HOOK(k, o, key="", arg=None, st=""):
         # the class of the exception must not matter (AttributeError looks like "hook not defined" to a careless getattr)
         kinds = (RuntimeError, AttributeError, KeyError, ValueError, ZeroDivisionError, AssertionError, LookupError,
                  TypeError, OSError, InjectedError, StopIteration, NotImplementedError)
-        raise kinds[(len(Rec.log) + len(k)) % len(kinds)]("injected fault at %s.%s" % (o, k))
+        args = ("injected fault at %s.%s" % (o, k),)
+        if len(Rec.log) % 3 == 0:
+            args += ({"site": k, "owner": o}, [1, 2])       # exception arguments need not be hashable
+        raise kinds[(len(Rec.log) + len(k)) % len(kinds)](*args)
     return dec["ret"]
 
 
@@ -201,7 +219,8 @@ def make_component(c, layout, variant):
             ns[k] = f
     for g in layout["feedbacks"]:
         if g["o"] == c:
-            add_getter(ns, c, g["key"], variant, g.get("ty", "int"), g.get("sann", False))
+            add_getter(ns, c, g["key"], variant, g.get("ty", "int"), g.get("sann", False), g.get("inplace", False),
+                       base_ns if g.get("ovr") else None)
     root = StateMachine if is_sm else object
     bases = (root,)
     if base_ns:
@@ -225,13 +244,25 @@ FB_ANN_STR = {"int": "int", "float": "float", "bool": "bool", "str": "str", "str
               "float[]": "tuple[float, ...]", "bool[]": "tuple[bool, ...]", "str[]": "Sequence[str]", "struct[]": "list[T2]"}
 
 
-def add_getter(ns, o, key, variant, ty="int", sann=False):
+def add_getter(ns, o, key, variant, ty="int", sann=False, inplace=False, base_ns=None):
+    box = []         # inplace: the getter hands out ONE list object, updated in place by the component
+
     def getter(self):
         r = HOOK("feedback", o, key=key)
         if ty in ("int", "none"):
             return r
         dom = FB_DOM[ty]
+        if inplace and isinstance(dom[0], list):
+            box[:] = dom[r % len(dom)]
+            return box
         return dom[r % len(dom)]
+    if base_ns is not None:
+        # the component's base class declares a @feedback getter of the same name; the override is the only one
+        def base_getter(self):
+            HOOK("feedback", o, key=key + "@base")
+            return -12345
+        base_getter.__name__ = ("get_" + key) if variant % 2 == 0 else ("read_" + key)
+        base_ns[base_getter.__name__] = feedback(base_getter) if variant % 2 == 0 else feedback(key=key)(base_getter)
     if ty != "none":
         getter.__annotations__ = {"return": FB_ANN_STR[ty] if sann else FB_ANN[ty]}
     if variant % 2 == 0:
@@ -275,11 +306,24 @@ def read_feedback(inst, path, ty):
     return -2, ts
 
 
+def make_derived(c, base_cls, layout):
+    """the class of component c derives from the class of an earlier component: it adds a marker of its own (rx)
+    and re-declares the markers listed in layout["derive_redecl"][c] with the defaults given in layout["resets"][c]"""
+    ns = {"rx": will_reset_to(layout["resets"][c]["rx"])}
+    for a in layout.get("derive_redecl", {}).get(c, []):
+        ns[a] = will_reset_to(layout["resets"][c][a])
+    return type("Comp_" + c, (base_cls,), ns)
+
+
 def make_robot(layout, uid):
     comps = layout["comps"]
     classes = {}
     for i, c in enumerate(comps):
         twin = layout.get("sameclass", {}).get(c)
+        parent = layout.get("derive", {}).get(c)
+        if parent in classes:
+            classes[c] = make_derived(c, classes[parent], layout)
+            continue
         classes[c] = classes[twin] if twin in classes else make_component(c, layout, uid + i)
     nbase = layout.get("robot_split", 0)       # the first nbase components are declared on a base robot class
 
@@ -321,6 +365,9 @@ class %(cls)s:
 
     def on_disable(self):
         _drv.HOOK("auto.on_disable", self.MODE_NAME)
+
+    def __len__(self):
+        return %(length)d          # some modes are falsy objects (empty containers)
 '''
 
 
@@ -336,7 +383,8 @@ def write_auto_package(root, layout):
         open(os.path.join(pk, "__init__.py"), "w").close()
         for i, name in enumerate(layout["modes"]):
             with open(os.path.join(pk, "mode%d.py" % i), "w") as f:
-                f.write(MODE_SRC % {"cls": "Mode%d" % i, "name": name, "default": name == layout["defmode"]})
+                f.write(MODE_SRC % {"cls": "Mode%d" % i, "name": name, "default": name == layout["defmode"],
+                                    "length": (len(name) + i) % 2})
         sys.path.insert(0, root)
     importlib.invalidate_caches()
 
@@ -372,6 +420,24 @@ class RandomPolicy:
         self.overrun = rng.random() < 0.25
         self.cur = "disabled"
         self.ended = False
+        # themed histories make rare combinations likely: the same mode entered again and again with a callback of
+        # that mode failing every time (FMS attached), or two modes in quick alternation
+        self.theme = rng.choice([None, None, None, "repeat", "pingpong"])
+        self.pair = rng.sample(["disabled", "auto", "teleop", "test"], 2)
+        if self.theme == "repeat":
+            self.pair = [rng.choice(["auto", "auto", "teleop"]), rng.choice(["disabled", "teleop", "test", "disabled"])]
+            if self.pair[0] == self.pair[1]:
+                self.pair[1] = "disabled"
+            self.nwaits = rng.randint(9, 16)
+            modes = layout["modes"]
+            cands = [(k, m) for m in modes for k in FAULT_SITES[12:]] if self.pair[0] == "auto" and modes else []
+            if self.pair[0] == "auto" and layout["defmode"] != "none":
+                cands += [(k, layout["defmode"]) for k in FAULT_SITES[12:]] * 4     # the mode that will actually run
+            self.force_fms = rng.random() < 0.8
+            cands += [(k, c) for c in layout["comps"] for k in ("on_enable", "on_disable")]
+            cands += [(k, "robot") for k in ("autonomousInit", "teleopInit", "disabledInit")]
+            for _ in range(rng.choice([1, 1, 2])):
+                self.fault[rng.choice(cands)] = "all"
 
     def decide(self, k, o, key):
         rng = self.rng
@@ -385,7 +451,11 @@ class RandomPolicy:
         if k in WRITERS and self.attrs and rng.random() < 0.35:
             for _ in range(rng.choice([1, 1, 2])):
                 c, a = rng.choice(self.attrs)
-                d["w"].append({"c": c, "a": a, "v": rng.randint(1, 9)})
+                v = rng.randint(1, 9)
+                dflt = self.layout["resets"][c].get(a)
+                if dflt is not None and rng.random() < 0.3:
+                    v = rng.choice({0: [1000, 1003, 1004], 1: [1001, 1002], 5: [1005]}.get(dflt, [v]))
+                d["w"].append({"c": c, "a": a, "v": v})
         if self.overrun and k in ("teleopPeriodic", "execute", "robotPeriodic") and rng.random() < 0.15:
             P = self.layout["period"]
             d["adv"] = rng.choice([P // 2, P, P + 1000, 3 * P + 7])
@@ -400,7 +470,14 @@ class RandomPolicy:
         if self.nwaits < 0:
             return None
         evs = []
-        if rng.random() < 0.30:
+        if getattr(self, "force_fms", False) and not self.fms:
+            self.fms = True
+            evs.append({"e": "fms", "b": True})
+        if self.theme in ("repeat", "pingpong") and rng.random() < 0.55:
+            m = self.pair[1] if self.cur == self.pair[0] else self.pair[0]
+            self.cur = m
+            evs.append({"e": "ds", "m": m})
+        elif rng.random() < 0.30:
             m = rng.choice([x for x in ("disabled", "auto", "teleop", "test") if x != self.cur])
             self.cur = m
             evs.append({"e": "ds", "m": m})
@@ -483,7 +560,7 @@ def gen_layout(rng, uid):
         shadow[c] = ["p"] if rng.random() < 0.25 else []
         if rng.random() < 0.5:
             fbs.append({"o": c, "key": rng.choice(["k_%s", "widget_%s", "budget_left_%s"]) % c, "ty": rng.choice(FB_TYPES),
-                        "sann": rng.random() < 0.35})
+                        "sann": rng.random() < 0.35, "inplace": rng.random() < 0.4, "ovr": rng.random() < 0.25})
     sm = [c for c in comps if rng.random() < 0.25]
     for c in sm:
         has[c]["on_enable"] = has[c]["on_disable"] = True     # StateMachine has both
@@ -501,6 +578,25 @@ def gen_layout(rng, uid):
             sm.append(b)
         if b in sm and a not in sm:
             sm.remove(b)
+    derive, derive_redecl = {}, {}
+    if n >= 2 and not sameclass and rng.random() < 0.3:
+        a, b = rng.sample(comps, 2)
+        a, b = sorted((a, b), key=comps.index)
+        # b's class derives from a's (both are components): b has a's callbacks, markers and attributes, one more
+        # marker of its own and possibly other defaults for re-declared ones; neither has getters
+        derive[b] = a
+        has[b], plain[b] = dict(has[a]), dict(plain[a])
+        resets[b] = dict(resets[a])
+        derive_redecl[b] = [x for x in resets[a] if x not in shadow[a] and rng.random() < 0.5]
+        for x in derive_redecl[b]:
+            resets[b][x] = resets[a][x] + 2
+        resets[b]["rx"] = rng.choice([0, 1, 5])
+        inherit[b], redeclare[b], shadow[b], initassign[b] = [], [], list(shadow[a]), list(initassign[a])
+        fbs = [g for g in fbs if g["o"] not in (a, b)]
+        if a in sm and b not in sm:
+            sm.append(b)
+        if b in sm and a not in sm:
+            sm.remove(b)
     if rng.random() < 0.4:
         fbs.append({"o": "robot", "key": rng.choice(["rk_%d", "target_%d"]) % uid, "ty": rng.choice(FB_TYPES),
                     "sann": rng.random() < 0.35})
@@ -511,7 +607,7 @@ def gen_layout(rng, uid):
             "teleAuto": rng.random() < 0.5, "modes": modes, "defmode": defmode,
             "period": rng.choice([20000, 20000, 5000, 15625]),
             "inherit": inherit, "redeclare": redeclare, "shadow": shadow, "sm": sm, "sameclass": sameclass,
-            "initassign": initassign,
+            "initassign": initassign, "derive": derive, "derive_redecl": derive_redecl,
             "robot_split": rng.randint(0, n)}
 
 
